@@ -25,6 +25,44 @@ Proof.
     apply (IH (d ++ [a])); auto. rewrite <- app_assoc. auto.
 Qed.
 
+(* references through a column whose policy is not 'null' survive the null-outs *)
+Lemma refs_after_null : forall test name x k P r,
+  test SetNull = false ->
+  refs_by test name x k (null_row P (c_fks k) r) = refs_by test name x k r.
+Proof.
+  intros test name x k P [i vals] Ht. unfold refs_by, null_row; cbn.
+  revert vals. induction (c_fks k) as [|c cs IH]; intros vals; destruct vals as [|v vs]; cbn; auto.
+  rewrite IH. f_equal.
+  destruct v as [y|]; auto.
+  destruct (fk_policy c) eqn:Ep; cbn; auto. rewrite Ht. auto.
+Qed.
+
+Lemma refs_matches : forall test name x k r,
+  test NoAction = false -> refs_by test name x k r = true -> row_matches name x k r = true.
+Proof.
+  intros test name x k [i vals] Ht. unfold refs_by, row_matches; cbn.
+  revert vals. induction (c_fks k) as [|c cs IH]; intros vals; destruct vals as [|v vs]; cbn; auto.
+  intros H. apply orb_true_iff in H as [H|H]; [|apply orb_true_iff; right; auto].
+  apply andb_true_iff in H as [H H3]. apply andb_true_iff in H as [H1 H2].
+  apply orb_true_iff; left. rewrite H3, andb_true_r. unfold collected. rewrite H2. cbn.
+  destruct (fk_policy c); cbn; auto. congruence.
+Qed.
+
+Lemma refs_dep : forall test name x k r,
+  test NoAction = false -> refs_by test name x k r = true ->
+  existsb (fun c => test (fk_policy c)) (dep_cols name k) = true.
+Proof.
+  intros test name x k [i vals] Ht. unfold refs_by, dep_cols; cbn.
+  revert vals. induction (c_fks k) as [|c cs IH]; intros vals; destruct vals as [|v vs]; cbn; try discriminate.
+  intros H. apply orb_true_iff in H as [H|H].
+  - apply andb_true_iff in H as [H H3]. apply andb_true_iff in H as [H1 H2].
+    unfold collected. rewrite H2. destruct (fk_policy c) eqn:Ep; cbn; rewrite ?Ep, ?H1; auto. congruence.
+  - destruct (collected name c); cbn; [apply orb_true_iff; right|]; eapply IH; eauto.
+Qed.
+
+Lemma row_restricts_refs : forall name x k r, row_restricts name x k r = refs_by is_restrict name x k r.
+Proof. reflexivity. Qed.
+
 Section Main.
 Variable dc : bool.
 Variable g : graph.
@@ -201,7 +239,8 @@ Proof.
 Qed.
 
 Lemma match_after_null : forall name x P cols vals,
-  (forall c, In c cols -> collected name c = true -> is_restrict (fk_policy c) = false) ->
+  existsb (fun cv => is_restrict (fk_policy (fst cv)) && N.eqb (fk_target (fst cv)) name && val_is (snd cv) x)
+          (combine cols vals) = false ->
   (forall c, In c cols -> collected name c = true -> is_setnull (fk_policy c) = true -> P name x = true) ->
   existsb (fun cv => collected name (fst cv) && val_is (snd cv) x) (combine cols (null_vals P cols vals)) =
   existsb (fun cv => is_cascade (fk_policy (fst cv)) && N.eqb (fk_target (fst cv)) name && val_is (snd cv) x)
@@ -210,14 +249,15 @@ Proof.
   intros name x P cols vals; revert cols; induction vals as [|v vs IH]; intros cols H1 H2.
   - destruct cols; auto.
   - destruct cols as [|c cs]; cbn; auto.
-    rewrite IH; [| intros c' Hc' Hcol; apply (H1 c'); cbn; auto | intros c' Hc' Hcol Hs; apply (H2 c'); cbn; auto]. f_equal.
-    specialize (H1 c (or_introl eq_refl)). specialize (H2 c (or_introl eq_refl)).
+    cbn in H1. apply orb_false_iff in H1 as [H1 H1'].
+    rewrite IH; [| auto | intros c' Hc' Hcol Hs; apply (H2 c'); cbn; auto]. f_equal.
+    specialize (H2 c (or_introl eq_refl)).
     unfold collected in *.
     destruct (N.eqb (fk_target c) name) eqn:Et; cbn in *; [|rewrite andb_false_r; auto].
     apply N.eqb_eq in Et.
     destruct (fk_policy c) eqn:Ep; cbn in *.
     + destruct v; auto.
-    + specialize (H1 eq_refl). discriminate.
+    + destruct v; cbn in *; auto.
     + destruct v as [y|]; cbn; auto.
       destruct (Z.eqb y x) eqn:Ey; cbn.
       * apply Z.eqb_eq in Ey. subst y. rewrite Et, H2; auto.
@@ -249,6 +289,15 @@ Proof.
   destruct (row_matches name x k (null_row _ (c_fks k) r)) eqn:E; auto.
   apply matches_null_mono in E. unfold select_matching in H.
   rewrite (filter_nil_all _ _ H r Hr) in E. discriminate.
+Qed.
+
+Lemma select_restr_mono : forall name x k sg, cols_of g (c_name k) = c_fks k ->
+  select_restricting name x k st0 = [] -> select_restricting name x k (ap sg st0) = [].
+Proof.
+  intros name x k sg Hc H. unfold select_restricting. rewrite table_apply, Hc. apply filter_nil_intro.
+  intros r' Hr'. apply in_map_iff in Hr' as [r [<- Hr]]. apply filter_In in Hr as [Hr _].
+  rewrite row_restricts_refs, refs_after_null by auto. rewrite <- row_restricts_refs.
+  apply (filter_nil_all _ _ H r Hr).
 Qed.
 
 Lemma ids_after : forall name x k sg, cols_of g (c_name k) = c_fks k ->
@@ -283,8 +332,7 @@ Proof.
 Qed.
 
 Definition nofire (q : node) : Prop :=
-  forall k, In k g -> existsb (fun c => is_restrict (fk_policy c)) (dep_cols (fst q) k) = true ->
-            select_matching (fst q) (snd q) k st0 = [].
+  forall k, In k g -> select_restricting (fst q) (snd q) k st0 = [].
 
 Lemma fold_dep_links : forall name x js st,
   fold_left (fun s j => if N.eqb (j_other j) name
@@ -344,12 +392,10 @@ Proof.
     - intros c Hc. exfalso. unfold children_in in Hc. apply in_map_iff in Hc as [r [_ Hr]].
       apply filter_In in Hr as [_ Hr]. apply refs_cascade_dep in Hr. cbn in Hr. rewrite Enil in Hr. discriminate. }
   (* the restrict test does not fire *)
-  assert (Hcase : existsb (fun c => is_restrict (fk_policy c)) (dep_cols name k) = false \/
-                  select_matching name x k st0 = []).
-  { destruct (existsb (fun c => is_restrict (fk_policy c)) (dep_cols name k)) eqn:Er; auto. }
+  assert (H0 : select_restricting name x k st0 = []) by apply (Hnf k Hk).
   assert (Htest : existsb (fun c => is_restrict (fk_policy c)) (dep_cols name k) &&
-                  negb (is_nil (select_matching name x k (ap sg1 st0))) = false).
-  { destruct Hcase as [->|H0]; auto. rewrite (select_mono name x k sg1 Hcols H0). cbn. apply andb_false_r. }
+                  negb (is_nil (select_restricting name x k (ap sg1 st0))) = false).
+  { rewrite (select_restr_mono name x k sg1 Hcols H0). cbn. apply andb_false_r. }
   rewrite Htest. clear Htest.
   (* the SetNull pass *)
   set (En := existsb (fun c => is_setnull (fk_policy c)) (dep_cols name k)).
@@ -386,20 +432,15 @@ Proof.
   (* the rows handed to destroySelf *)
   assert (Hpt : forall r, In r (table st0 n) ->
             row_matches name x k (null_row (sg_null sg2 n) (c_fks k) r) = refs_by is_cascade name x k r).
-  { intros r Hr. destruct Hcase as [Er|H0].
-    - destruct r as [i vals]. unfold row_matches, null_row, refs_by; cbn.
-      apply match_after_null.
-      + intros c Hc Hcol. rewrite existsb_false in Er. apply Er. unfold dep_cols. apply filter_In; auto.
-      + intros c Hc Hcol Hs.
-        assert (HEn : En = true).
-        { unfold En. apply existsb_exists. exists c. split; auto. unfold dep_cols. apply filter_In; auto. }
-        unfold sg2. rewrite HEn. cbn. rewrite !N.eqb_refl, Z.eqb_refl. apply orb_true_r.
-    - unfold select_matching in H0. fold n in H0.
-      pose proof (filter_nil_all _ _ H0 r Hr) as Hm.
-      destruct (row_matches name x k (null_row (sg_null sg2 n) (c_fks k) r)) eqn:E1.
-      + apply matches_null_mono in E1. congruence.
-      + destruct (refs_by is_cascade name x k r) eqn:E2; auto.
-        apply cascade_ref_matches in E2. congruence. }
+  { intros r Hr.
+    assert (Hnr : row_restricts name x k r = false) by apply (filter_nil_all _ _ H0 r Hr).
+    destruct r as [i vals]. unfold row_matches, null_row, refs_by; cbn.
+    apply match_after_null.
+    - exact Hnr.
+    - intros c Hc Hcol Hs.
+      assert (HEn : En = true).
+      { unfold En. apply existsb_exists. exists c. split; auto. unfold dep_cols. apply filter_In; auto. }
+      unfold sg2. rewrite HEn. cbn. rewrite !N.eqb_refl, Z.eqb_refl. apply orb_true_r. }
   rewrite (ids_after name x k sg2 Hcols Hpt). fold n.
   set (ids := map r_id (filter (fun r => keep sg2 n r && refs_by is_cascade name x k r) (table st0 n))).
   assert (Hids : forall i, In i ids -> In (n, i) (children_in k (name, x))).
@@ -642,22 +683,22 @@ Proof.
   - intros T x H. discriminate.
 Qed.
 
-Lemma fires_false_nofire : forall g st p q,
-  acyclicb g st p = true -> fires g st (closure g st p) = false ->
+Lemma unrestricted_nofire : forall g st p q,
+  acyclicb g st p = true -> restricted g st (closure g st p) = false ->
   reach g st p q -> nofire g st q.
 Proof.
-  intros g st p q Ha Hf Hr k Hk Hres.
-  unfold fires in Hf. rewrite existsb_false in Hf.
+  intros g st p q Ha Hf Hr k Hk.
+  unfold restricted in Hf. rewrite existsb_false in Hf.
   specialize (Hf q (closure_complete g st p q Ha Hr)). rewrite existsb_false in Hf.
-  specialize (Hf k Hk). rewrite Hres in Hf. cbn in Hf. apply negb_false_iff in Hf.
-  apply is_nil_true in Hf. auto.
+  specialize (Hf k Hk). rewrite existsb_false in Hf.
+  unfold select_restricting. apply filter_nil_intro. intros r Hr'. rewrite row_restricts_refs. auto.
 Qed.
 
-(* when the code's restrict test never fires on the closure and no cascade
+(* when no row of the closure is referenced through cascade=False and no cascade
    cycle is reachable, destroySelf does exactly what the specification says *)
 Theorem refines_ok : forall dc g st p fuel,
   wf_graph g = true -> wf_state st = true ->
-  acyclicb g st p = true -> fires g st (closure g st p) = false ->
+  acyclicb g st p = true -> restricted g st (closure g st p) = false ->
   (fuel > length (all_nodes g st))%nat ->
   destroy dc fuel g st p = Done (apply dc g (full g (closure g st p)) st).
 Proof.
@@ -665,7 +706,7 @@ Proof.
   destruct (destroy_ok dc g st WG WS fuel sg_empty p) as [sg' [Hd [Dd [Dn Dl]]]].
   - apply good_empty.
   - eapply boundedb_le; [|apply Ha]. lia.
-  - intros q Hq. eapply fires_false_nofire; eauto.
+  - intros q Hq. eapply unrestricted_nofire; eauto.
   - rewrite apply_empty in Hd. rewrite Hd. f_equal. apply apply_ext.
     + intros k i. apply bool_iff_eq. rewrite Dd. cbn. rewrite closure_reach by auto.
       split; [intros [H|H]; [discriminate|auto] | auto].
@@ -726,13 +767,21 @@ Proof.
   apply H; auto.
 Qed.
 
-Lemma matches_dep_cols : forall name x k r, row_matches name x k r = true -> is_nil (dep_cols name k) = false.
+Lemma restricts_dep_cols : forall name x k r, row_restricts name x k r = true ->
+  is_nil (dep_cols name k) = false /\ existsb (fun c => is_restrict (fk_policy c)) (dep_cols name k) = true.
 Proof.
-  intros name x k [i vals]. unfold row_matches, dep_cols; cbn.
-  revert vals. induction (c_fks k) as [|c cs IH]; intros vals; destruct vals as [|v vs]; cbn; try discriminate.
-  intros H. apply orb_true_iff in H as [H|H].
-  - apply andb_true_iff in H as [H _]. rewrite H. auto.
-  - destruct (collected name c); auto. eapply IH; eauto.
+  intros name x k r H. rewrite row_restricts_refs in H. apply refs_dep in H; auto.
+  split; auto. destruct (dep_cols name k); [discriminate|auto].
+Qed.
+
+Lemma restricting_matching : forall name x k st,
+  is_nil (select_matching name x k st) = true -> is_nil (select_restricting name x k st) = true.
+Proof.
+  intros name x k st H. apply is_nil_true in H. apply is_nil_true.
+  unfold select_restricting, select_matching in *. apply filter_nil_intro. intros r Hr.
+  destruct (row_restricts name x k r) eqn:E; auto.
+  rewrite row_restricts_refs in E. apply refs_matches in E; auto.
+  rewrite (filter_nil_all _ _ H r Hr) in E. discriminate.
 Qed.
 
 Lemma immediate_refusal_raises : forall dc g st p f,
@@ -742,36 +791,35 @@ Proof.
   apply andb_true_iff in H as [H H3]. apply andb_true_iff in H as [H1 H2].
   cbn [destroy fst snd]. rewrite own_links_noop by auto.
   assert (L : forall l, (forall k, In k l -> In k g) ->
-            (exists k, In k l /\ is_nil (select_matching name x k st) = false) ->
+            (exists k, In k l /\ is_nil (select_restricting name x k st) = false) ->
             run_list (dep_step (destroy dc f g) name x) l st = Raised st).
   { induction l as [|k l IH]; intros Hsub [k0 [Hk0 Hm]]; [destruct Hk0|].
     cbn [run_list]. unfold dep_step at 1. rewrite (dep_links_noop g st name x k); auto; [|apply Hsub; cbn; auto].
     rewrite forallb_forall in H3. specialize (H3 k (Hsub k (or_introl eq_refl))).
-    destruct (is_nil (select_matching name x k st)) eqn:Em.
-    - (* nothing references the victim from this class *)
-      apply is_nil_true in Em.
+    destruct (is_nil (select_restricting name x k st)) eqn:Er.
+    - (* no restricting row in this class: then no matching row at all *)
+      cbn in H3. rewrite orb_false_r in H3.
       assert (Hrest : run_list (dep_step (destroy dc f g) name x) l st = Raised st).
       { apply IH; [intros; apply Hsub; cbn; auto|].
-        destruct Hk0 as [<-|Hk0]; [|eauto]. rewrite Em in Hm. discriminate. }
+        destruct Hk0 as [<-|Hk0]; [|eauto]. rewrite Er in Hm. discriminate. }
+      apply is_nil_true in H3.
       destruct (is_nil (dep_cols name k)); auto.
-      rewrite Em. cbn [is_nil negb]. rewrite andb_false_r.
-      destruct (existsb (fun c => is_setnull (fk_policy c)) (dep_cols name k)); cbn [fold_left];
-        rewrite Em; destruct (existsb (fun c => is_cascade (fk_policy c)) (dep_cols name k)); cbn; auto.
-    - cbn in H3.
-      assert (Hn : is_nil (dep_cols name k) = false).
-      { destruct (select_matching name x k st) as [|r rs] eqn:Es; [discriminate|].
-        assert (Hr : In r (select_matching name x k st)) by (rewrite Es; cbn; auto).
-        unfold select_matching in Hr. apply filter_In in Hr as [_ Hr]. eapply matches_dep_cols; eauto. }
-      rewrite Hn, H3. cbn. auto. }
+      cbn [negb]. rewrite andb_false_r.
+      destruct (existsb (fun c => is_setnull (fk_policy c)) (dep_cols name k)); rewrite H3; cbn [fold_left];
+        rewrite ?H3; destruct (existsb (fun c => is_cascade (fk_policy c)) (dep_cols name k)); cbn; auto.
+    - destruct (select_restricting name x k st) as [|r rs] eqn:Es; [discriminate|].
+      assert (Hr : In r (select_restricting name x k st)) by (rewrite Es; cbn; auto).
+      unfold select_restricting in Hr. apply filter_In in Hr as [_ Hr].
+      destruct (restricts_dep_cols _ _ _ _ Hr) as [Hn Hres]. rewrite Hn, Hres. cbn. auto. }
   rewrite L; auto.
   - intros k Hk. unfold find_dependencies in Hk. apply filter_In in Hk. tauto.
   - apply existsb_exists in H2 as [k [Hk Hm]]. apply negb_true_iff in Hm. exists k. split; auto.
     unfold find_dependencies. apply filter_In. split; auto.
     unfold is_dependent.
-    destruct (select_matching name x k st) as [|r rs] eqn:Es; [discriminate|].
-    assert (Hr : In r (select_matching name x k st)) by (rewrite Es; cbn; auto).
-    unfold select_matching in Hr. apply filter_In in Hr as [_ Hr].
-    rewrite (matches_dep_cols _ _ _ _ Hr). auto.
+    destruct (select_restricting name x k st) as [|r rs] eqn:Es; [discriminate|].
+    assert (Hr : In r (select_restricting name x k st)) by (rewrite Es; cbn; auto).
+    unfold select_restricting in Hr. apply filter_In in Hr as [_ Hr].
+    destruct (restricts_dep_cols _ _ _ _ Hr) as [Hn _]. rewrite Hn. auto.
 Qed.
 
 Theorem refines_partial : forall dc g st p fuel,
@@ -780,11 +828,10 @@ Theorem refines_partial : forall dc g st p fuel,
   destroy dc fuel g st p = destroy_spec dc g st p.
 Proof.
   intros dc g st p fuel WG WS H Hfuel. unfold guard_ok in H.
-  apply andb_true_iff in H as [H H3]. apply andb_true_iff in H as [H1 H2].
-  apply negb_true_iff in H2. unfold mixed_trigger in H2. unfold destroy_spec.
+  apply andb_true_iff in H as [H1 H3]. unfold destroy_spec.
   destruct (restricted g st (closure g st p)) eqn:Er.
   - cbn in H3. destruct fuel as [|f]; [lia|]. apply immediate_refusal_raises; auto.
-  - cbn in H2. rewrite andb_true_r in H2. apply refines_ok; auto.
+  - apply refines_ok; auto.
 Qed.
 
 (* ---------------------------------------------------------------- what a successful destroy leaves behind *)
@@ -832,26 +879,24 @@ Qed.
 Theorem refines_partial_rows : forall dc g st p fuel,
   wf_graph g = true -> wf_state st = true ->
   acyclic_rows g st p ->
-  mixed_trigger g st p = false ->
   (restricted g st (closure g st p) = false \/ immediate_refusal g st p = true) ->
   (fuel > length (all_nodes g st))%nat ->
   destroy dc fuel g st p = destroy_spec dc g st p.
 Proof.
-  intros dc g st p fuel WG WS Ha Hm Hr Hfuel. apply refines_partial; auto.
-  unfold guard_ok. rewrite (acyclicb_complete g st p Ha), Hm. cbn.
+  intros dc g st p fuel WG WS Ha Hr Hfuel. apply refines_partial; auto.
+  unfold guard_ok. rewrite (acyclicb_complete g st p Ha). cbn.
   destruct Hr as [->| ->]; auto. apply orb_true_r.
 Qed.
 
-(* a raise means the code's restrict test fired on a row of the closure:
-   the specification refuses, or the per-class test was triggered *)
-Theorem raise_only_if_fires : forall dc g st p fuel st',
+(* a raise means that the specification refuses: some row of the closure is
+   referenced through cascade=False *)
+Theorem raise_only_if_restricted : forall dc g st p fuel st',
   wf_graph g = true -> wf_state st = true -> acyclicb g st p = true ->
   (fuel > length (all_nodes g st))%nat ->
   destroy dc fuel g st p = Raised st' ->
-  restricted g st (closure g st p) = true \/ mixed_trigger g st p = true.
+  restricted g st (closure g st p) = true.
 Proof.
   intros dc g st p fuel st' WG WS Ha Hfuel Hd.
-  destruct (fires g st (closure g st p)) eqn:Ef.
-  - unfold mixed_trigger. rewrite Ef. destruct (restricted g st (closure g st p)); auto.
-  - rewrite (refines_ok dc g st p fuel WG WS Ha Ef Hfuel) in Hd. discriminate.
+  destruct (restricted g st (closure g st p)) eqn:Ef; auto.
+  rewrite (refines_ok dc g st p fuel WG WS Ha Ef Hfuel) in Hd. discriminate.
 Qed.
